@@ -18,7 +18,9 @@ EXPLANATION = (
     "wanted offset; (11) the segment is sliced only on paths that established overlap start == wanted offset (or segment "
     "start <= wanted offset), and the wanted offset / remaining size move by exactly len(bytes written) on every path "
     "through the write; (8) the hash-tree rules of C35 (journaled stores, rollback, conflict checks, propagation to the "
-    "root over every level) as rules C02.8.*; (12) what turns the validated ciphertext into the bytes the reader sees: the AES-CTR "
+    "root over every level) as rules C02.8.*, decided on the journal view of set_hashes (helper methods inlined, an overlay-and-commit "
+    "set_hashes rewritten into journal-and-rollback after deciding that nothing able to reject follows the commit; a known node - the "
+    "root included - whose offered value differs is rejected on every path); (12) what turns the validated ciphertext into the bytes the reader sees: the AES-CTR "
     "context DecryptingConsumer.write uses can only be the one keyed in that consumer's own constructor from (readkey, offset of "
     "this read) - every store of it, on every path, nobody else stores it - and ImmutableFileNode.read builds the consumer in the "
     "call with the offset it reads the ciphertext from; (13) a read() hands its consumer to exactly one byte source: no stage of "
